@@ -152,9 +152,32 @@ CLAIMS["C16"] = dict(
     note="xtensor whole-array / column-view assignment modelled as element-wise loops with their own contracts; one bounded group (<= 2 nodes) "
          "judges explicit-loop rewrites of the column copy.",
 )
+CLAIMS["C15"] = dict(
+    category="other",
+    text="Unbounded contract proofs of the pieces Kruskal's argument rests on: union-find (find returns the class representative and keeps every "
+         "class, link/merge unites exactly two classes, resize+clear gives singletons), the sort comparator is a strict weak order on pass "
+         "elevations, one Kruskal step takes an edge iff its end points are in different classes and then merges them, the per-call resets of "
+         "connect_basins / compute_tree_kruskal (root, edge list, edge-position table, tree, union-find), the lowest-pass update of one "
+         "neighbour visit, and the 'basic' re-routing of a pit. Minimality (Kruskal's theorem), spanning-ness, Boruvka and edge orientation are "
+         "NOT decided (no contract within reach states them without cardinalities / reachability).",
+    note="std::sort trusted (permutation of edge indices); vectors modelled with a symbolic capacity; order / basin-label / neighbour contracts "
+         "assumed on read; Boruvka, orient_edges and the carve re-routing are not under contract.",
+)
+CLAIMS["C14"] = dict(
+    category="other",
+    text="PARTIAL. Decided by unbounded contract proofs on the extracted solve_tridiagonal, solve_adi_row (+ its outlined cell body), set_factors (+ its "
+         "outlined cell body) and erode, for every shape >= 3x3 and all values: (a) zero erosion on the four borders (border rows copied; a fixed-value "
+         "end equation is solved bit-exactly whenever the adjacent result is finite); (b) the tridiagonal systems that are assembled are those of the "
+         "Peaceman-Rachford half steps with face-averaged diffusivity -- lower/diagonal/upper/right-hand side of every interior cell built from the "
+         "right cells, factor planes, axis spacings and time step, for scalar and array diffusivity; (c) the two half steps get the right arguments "
+         "(transposition, swapped factor tables, system sizes) and erosion = input - final. NOT decided: that the Thomas recurrence returns the "
+         "solution of those systems within rounding, scalar/uniform-array agreement and linearity (they hold only up to rounding).",
+    note="Clauses of (b) are written in the association the library documents and are replay-decided: a failed obligation is a VIOLATION only when the "
+         "native oracle (dense direct solve in long double on the real eroder) reproduces a deviation beyond rounding; otherwise exit 2 (proof detached). "
+         "xtensor expression/transpose/copy semantics are modelled and assumed.",
+)
 _PLANNED = "check not built yet in this session (planned in DESIGN.md section 4); nothing is claimed"
 NOT_APPLICABLE = {
-    "C14": "equality up to rounding with a direct ADI solve: no bit-precise postcondition exists, the Thomas recurrence is nonlinear floating point over an unbounded loop (beyond every installed back end) and the body is xtensor expression algebra that cannot be extracted mechanically (DESIGN.md section 5)",
 }
-for _p in ["C15"]:
+for _p in []:
     NOT_APPLICABLE[_p] = _PLANNED
